@@ -226,6 +226,7 @@ def check(prog: Program, res: Result) -> None:
     res.borrow(c09.check_unmatched, "C10-unmatched", prog)
     res.borrow(c09.check_features_aligned, "C10-align", prog)
     res.borrow(c09.check_matcher_axes, "C10-axes", prog)
+    res.borrow(c09.check_pass, "C10-pass", prog)     # a frame enters the queue only with the tracks that were created for it
     from . import _nanred
     _nanred.check_nan_reductions(prog, res, "C10-nan", ["sleap_nn.tracking.utils:get_bbox", "sleap_nn.tracking.utils:get_centroid"], floor=3)
     from . import _match
